@@ -578,8 +578,8 @@ end
 
 /-- Hypothesis of `prev_sibling_spec_general` about positions (on top of `psPathOK`, which is about
 slot ids): along the path every earlier sibling — and every raw node inside it — is passed over by
-the scan, and the scan stops at every proper ancestor.  For a NON-EMPTY `self` (and for an empty one
-with padding) this always holds; for a `self` without any bytes it says that
+the scan, and the scan stops at every proper ancestor.  For a NON-EMPTY `self` this always holds (`psZwOK_of_nonempty`), and an empty one
+with padding never consults the test; for a `self` without any bytes it says that
 `ts_subtree_has_trailing_empty_descendant(·, self)` — which compares subtree POINTERS, inline leaves
 by value, and gives up at the first non-empty child from the right — is true for the ancestors that
 end where `self` lies and false for everything before `self` that ends there. -/
@@ -639,6 +639,30 @@ def parentSplit (lang : Lang) : NodeRef × List Nat → NodeRef → List Nat →
     | some c => parentSplit lang (if c.relevant lang true then (c, k' :: rest) else best) c (k' :: rest)
     | none => best
 
+/-! ### Runtime side of the NAMED sibling theorems (`SiblingNamed.lean`) -/
+
+/-- Does an enumerated visible child count for the flag `include_anonymous`? -/
+def keepA (lang : Lang) (anon : Bool) (e : Tree × Nat) : Bool := anon || entryNamed lang e
+
+/-- `nsZwOK` for either flag (extra hypothesis of `next_sibling_spec_anon` for an EMPTY `self`): an
+ancestor below the parent that STARTS where `self` lies and extends beyond it is not relevant; if the
+scan takes it as a "later child" (its relevant-child count is positive) then something that counts
+follows `self` inside it, or nothing that counts follows the ancestor at its own level; if the scan
+passes it over (count 0) nothing that counts follows `self` inside it. -/
+def nsZwOKA (lang : Lang) (anon : Bool) (self : NodeRef) : NodeRef → List Nat → Bool
+  | _, [] => true
+  | n, k :: rest =>
+    match (rawChildren lang n)[k]? with
+    | some rc =>
+      rest.isEmpty ||
+        ((if rc.node.startByte == self.startByte && decide (self.endByte < rc.posAfter.bytes) then
+            !rc.node.relevant lang anon &&
+              (if rc.node.relChildCount anon == 0 then ((laterOnPath lang rc.node rest).filter (keepA lang anon)).isEmpty
+               else !((laterOnPath lang rc.node rest).filter (keepA lang anon)).isEmpty ||
+                 ((enumKids lang n.t.data.productionId (n.t.kids.drop (k + 1)) (if rc.node.t.data.extra then rc.si else rc.si + 1)).filter (keepA lang anon)).isEmpty)
+          else true) && nsZwOKA lang anon self rc.node rest)
+    | none => false
+
 /-- Evaluation of `next_sibling_spec_partial` on a real tree, over every relevant NON-EMPTY node
 below the root: `checked` = nodes whose path from the parent satisfies `nsPathOK` and for which the
 ported `ts_node_next_sibling` returns the head of `laterOnPath` (same subtree data and alias);
@@ -666,10 +690,20 @@ structure SiblingHyp where
   /-- why zero-width nodes are outside: next — parent/id hypotheses, `nsPathOK` (a zero-width raw node
   follows at the same byte), `nsZwOK`; prev — parent/id hypotheses, `psPathOK`, `psZwOK` -/
   zwhy : Nat × Nat × Nat × Nat × Nat × Nat := (0, 0, 0, 0, 0, 0)
+  /-- `prev_sibling_spec_anon` for the NAMED flag (every relevant node, any width): checked / outside / bad,
+  and the expectations for the comparison with `FT.prevSibling … namedOnly` -/
+  nnchecked : Nat := 0
+  nnoutside : Nat := 0
+  nnbad : Nat := 0
+  nnexts : List (Nat × Option (NodeData × Nat)) := []
+  npchecked : Nat := 0
+  npoutside : Nat := 0
+  npbad : Nat := 0
+  nprevs : List (Nat × Option (NodeData × Nat)) := []
   /-- non-empty nodes for which `psZwOK` (always true for them, `psZwOK_of_nonempty`) evaluates to false -/
   pgenbad : Nat := 0
 
-def siblingHyp (lang : Lang) (root : NodeRef) : SiblingHyp :=
+def siblingHyp (lang : Lang) (root : NodeRef) (anonOK : Bool := true) : SiblingHyp :=
   (pathsOf root.t).foldl (init := {}) fun acc p =>
     match nodeAt lang root p with
     | none => { acc with bad := acc.bad + 1 }
@@ -691,6 +725,14 @@ def siblingHyp (lang : Lang) (root : NodeRef) : SiblingHyp :=
             let got : Option (NodeData × Nat) := (nextSiblingPort lang fuel root d true).map fun r => (r.t.data, r.alias)
             if decide (got = exp) then { acc with zchecked := acc.zchecked + 1, nexts := (d.id, exp) :: acc.nexts }
             else { acc with zbad := acc.zbad + 1 }
+        -- the NAMED flag (`next_sibling_spec_anon`): nsPathOK + nsZwOKA + anonLeafOK of the tree
+        let acc :=
+          if !(anonOK && parOK && nsPathOK lang d par q && nsZwOKA lang false d par q) then { acc with nnoutside := acc.nnoutside + 1 }
+          else
+            let nexp : Option (NodeData × Nat) := (((laterOnPath lang par q).filter (entryNamed lang)).head?).map fun x => (x.1.data, x.2)
+            let ngot : Option (NodeData × Nat) := (nextSiblingPort lang fuel root d false).map fun r => (r.t.data, r.alias)
+            if decide (ngot = nexp) then { acc with nnchecked := acc.nnchecked + 1, nnexts := (d.id, nexp) :: acc.nnexts }
+            else { acc with nnbad := acc.nnbad + 1 }
         if !(parOK && psPathOK lang d par q && psZwOK lang fuel d par q) then
           let (a, b, c, x, y, z) := acc.zwhy
           { acc with zpoutside := acc.zpoutside + 1,
@@ -698,8 +740,15 @@ def siblingHyp (lang : Lang) (root : NodeRef) : SiblingHyp :=
         else
           let exp : Option (NodeData × Nat) := ((earlierOnPath lang par q).getLast?).map fun x => (x.1.data, x.2)
           let got : Option (NodeData × Nat) := (prevSiblingPort lang fuel root d true).map fun r => (r.t.data, r.alias)
-          if decide (got = exp) then { acc with zpchecked := acc.zpchecked + 1, prevs := (d.id, exp) :: acc.prevs }
-          else { acc with zpbad := acc.zpbad + 1 }
+          let acc := if decide (got = exp) then { acc with zpchecked := acc.zpchecked + 1, prevs := (d.id, exp) :: acc.prevs }
+            else { acc with zpbad := acc.zpbad + 1 }
+          -- the NAMED flag (`prev_sibling_spec_anon`), same hypotheses + anonLeafOK of the tree
+          if !anonOK then { acc with npoutside := acc.npoutside + 1 }
+          else
+            let nexp : Option (NodeData × Nat) := (((earlierOnPath lang par q).filter (entryNamed lang)).getLast?).map fun x => (x.1.data, x.2)
+            let ngot : Option (NodeData × Nat) := (prevSiblingPort lang fuel root d false).map fun r => (r.t.data, r.alias)
+            if decide (ngot = nexp) then { acc with npchecked := acc.npchecked + 1, nprevs := (d.id, nexp) :: acc.nprevs }
+            else { acc with npbad := acc.npbad + 1 }
       else
         let (par, q) := parentSplit lang (root, p) root p
         let parOK := par.id == (parentOnPath lang root root p).id && hiddenPath lang par q &&
@@ -713,13 +762,28 @@ def siblingHyp (lang : Lang) (root : NodeRef) : SiblingHyp :=
             if parOK && decide (got = exp) then
               { acc with checked := acc.checked + 1, nexts := (d.id, exp) :: acc.nexts }
             else { acc with bad := acc.bad + 1 }
+        -- the NAMED flag (`next_sibling_spec_anon`), non-empty node: nsPathOK + anonLeafOK of the tree
+        let acc :=
+          if !(anonOK && parOK && nsPathOK lang d par q) then { acc with nnoutside := acc.nnoutside + 1 }
+          else
+            let nexp : Option (NodeData × Nat) := (((laterOnPath lang par q).filter (entryNamed lang)).head?).map fun x => (x.1.data, x.2)
+            let ngot : Option (NodeData × Nat) := (nextSiblingPort lang (root.t.size + 1) root d false).map fun r => (r.t.data, r.alias)
+            if decide (ngot = nexp) then { acc with nnchecked := acc.nnchecked + 1, nnexts := (d.id, nexp) :: acc.nnexts }
+            else { acc with nnbad := acc.nnbad + 1 }
         if !(psPathOK lang d par q) then { acc with poutside := acc.poutside + 1 }
         else
           let exp := ((earlierOnPath lang par q).getLast?).map fun x => (x.1.data, x.2)
           let got := (prevSiblingPort lang (root.t.size + 1) root d true).map fun r => (r.t.data, r.alias)
-          if parOK && decide (got = exp) then
-            { acc with pchecked := acc.pchecked + 1, prevs := (d.id, exp) :: acc.prevs }
-          else { acc with pbad := acc.pbad + 1 }
+          let acc := if parOK && decide (got = exp) then
+              { acc with pchecked := acc.pchecked + 1, prevs := (d.id, exp) :: acc.prevs }
+            else { acc with pbad := acc.pbad + 1 }
+          -- the NAMED flag (`prev_sibling_spec_anon`): psPathOK + psZwOK (true for non-empty nodes) + anonLeafOK of the tree
+          if !(anonOK && parOK && psZwOK lang (root.t.size + 1) d par q) then { acc with npoutside := acc.npoutside + 1 }
+          else
+            let nexp : Option (NodeData × Nat) := (((earlierOnPath lang par q).filter (entryNamed lang)).getLast?).map fun x => (x.1.data, x.2)
+            let ngot : Option (NodeData × Nat) := (prevSiblingPort lang (root.t.size + 1) root d false).map fun r => (r.t.data, r.alias)
+            if decide (ngot = nexp) then { acc with npchecked := acc.npchecked + 1, nprevs := (d.id, nexp) :: acc.nprevs }
+            else { acc with npbad := acc.npbad + 1 }
 
 /-! ### Runtime side of `first_child_for_byte_spec_partial` -/
 
